@@ -66,6 +66,7 @@ type runtime struct {
 	stackLimit   int
 	traceLimit   int
 	lck          sync.Mutex
+	verif        verifRT
 }
 
 func (rt *runtime) enterScope(scop *scope) {
